@@ -46,4 +46,9 @@ def dLeak : Doc := ⟨[⟨s "/a", [get], []⟩, ⟨s "/b", [get], [⟨s "/p", []
 /-- path-item level servers on the only path -/
 def dPathSrv : Doc := ⟨[⟨s "/a", [get], [⟨s "/p", []⟩]⟩], [⟨s "/v1", []⟩]⟩
 
+/-- host variable without enum -/
+def dDot : Doc := ⟨[⟨s "/a", [get], []⟩], [⟨s "https://{tenant}.api.test", [⟨s "tenant", s "acme", []⟩]⟩]⟩
+def rDot : Req := ⟨get, true, s "https", s "a.b.api.test", s "/a"⟩
+def rDotOK : Req := ⟨get, true, s "https", s "acme.api.test", s "/a"⟩
+
 end KinModel.Router.W
